@@ -33,6 +33,7 @@ type Server struct {
 	supportsConfiguration bool
 	payeeTemplatesCache   sync.Map // map[protocol.DocumentURI]map[string][]analyzer.PostingTemplate
 	publishMu             sync.Mutex
+	configMu              sync.Mutex
 }
 
 func NewServer() *Server {
